@@ -262,18 +262,36 @@ def r14_3(prog, rep):
         rep.fail(rid, "echsx/shape", ex.loc(), "expected one set_timeout and one run_task call, found %d/%d" % (len(sts), len(runs)))
         return
     S, R = sts[0], runs[0]
+    # the discriminant: the lvalue whose field is the VTODO kind, as the executor reads it (switch or if-chain alike)
+    discr = None
+    for b, i, x, line in cfg.all_elems():
+        for n in walk(cfg.resolve(x)):
+            if n.get("k") == "mem" and n.get("f") == "vtod_typ":
+                discr = lv(n)
+    if discr is None:
+        raise AnalysisBroken("R14.3: echsx() never reads the VTODO kind")
+    from ..absw import AbsWalk
     for val, nm in ((T, "TIMEOUT"), (D, "DUE")):
-        cases = [b for b in cfg.blocks.values() if b.label and b.label["k"] == "case" and b.label.get("lo") == val]
-        if not cases:
-            rep.fail(rid, "echsx/case-%s" % nm, ex.loc(), "no case for VTOD_TYP_%s" % nm)
-            continue
-        cb = cases[0].id
-        # every path from the case to run_task passes set_timeout, unless it goes to fatal (no run)
-        hits, _ = forward_scan(cfg, (cb, -1), lambda b, i, x: "hit" if elem_has_call(x, "run_task") else ("stop" if elem_has_call(x, "set_timeout") else None))
-        if hits:
-            rep.fail(rid, "echsx/case-%s arms before spawn" % nm, ex.loc(cases[0].label.get("line")), "VTOD_TYP_%s can reach run_task without set_timeout" % nm)
+        # with the kind fixed to this value, every feasible path to the spawn passes set_timeout (paths to `fatal` do not spawn)
+        unarmed = []
+
+        def effect(b, i, x, store, _un=unarmed):
+            if isinstance(x, dict) and x.get("k") == "call":
+                if x.get("fn") == "set_timeout":
+                    return {"$armed": 1}
+                if x.get("fn") == "run_task" and not store.get("$armed"):
+                    _un.append(x.get("line"))
+            return None
+        w = AbsWalk(ex, {discr}, init={discr: val}, effect=effect)
+        w.run()
+        reached = [st for st in w.exit_stores]
+        key = "echsx/case-%s arms before spawn" % nm
+        if not reached:
+            rep.fail(rid, "echsx/case-%s" % nm, ex.loc(), "no feasible path for VTOD_TYP_%s" % nm)
+        elif unarmed:
+            rep.fail(rid, key, ex.loc(unarmed[0]), "with %s == VTOD_TYP_%s the spawn can be reached without set_timeout" % (discr, nm))
         else:
-            rep.ok(rid, "echsx/case-%s arms before spawn" % nm, ex.loc(cases[0].label.get("line")), "every path from case VTOD_TYP_%s to the spawn passes set_timeout" % nm)
+            rep.ok(rid, key, ex.loc(S.line), "with %s == VTOD_TYP_%s every feasible path to the spawn passes set_timeout" % (discr, nm))
     # overdue test: now >= due  true edge reaches no spawn; dominates set_timeout on the DUE path
     od = None
     for b in cfg.blocks:
